@@ -909,7 +909,9 @@ Lemma long_value_misread :
                unmarshal_bin (frames (marshal_kv p)) = Some p' /\ p_tid p' <> p_tid p.
 Proof.
   exists long_p, (mkP enc_json [] None None [] false [] 0 0).
-  pose proof long_value_misread_b as H. rewrite !andb_true_iff in H. destruct H as [[[H1 H2] _] H4].
+  pose proof long_value_misread_b as H.
+  apply andb_prop in H. destruct H as [H H4]. apply andb_prop in H. destruct H as [H _].
+  apply andb_prop in H. destruct H as [H1 H2].
   split; [exact (oparams_eqb_eq _ _ H1)|]. split; [apply transportable_iff; exact H2|].
   split; [exact (oparams_eqb_eq _ _ H4)|].
   unfold long_p, long_tid. cbn [p_tid app]. discriminate.
